@@ -354,7 +354,9 @@ class ExprMixin:
         if ft is TNone:
             return NONE
         v = V(ft, z3.Select(arr, ref.z))
-        if isinstance(ft, (TList, TSet, TDict)) or ft is TBytes:
+        if isinstance(ft, (TList, TSet, TDict)) and not self.spec_mode:
+            # mutable containers held in a field have reference semantics (bytes are immutable;
+            # a bytearray field is always mutated through its attribute expression)
             v.lval = ('field', ref, key)
         if not self.spec_mode:
             self.assume_wf(v)
